@@ -164,21 +164,34 @@ func (r *replayer) run() {
 func (r *replayer) step(st *step) {
 	w := r.w
 	switch st.A {
-	case "Dial":
+	case "Lstat":
 		a := w.startShell(st.S, nil)
-		if st.R != "queued" {
+		if st.R == "missing" {
 			r.expect(a, "shell.detected", statusOf(st.R))
-		} else if st.Dpc[st.D-1] != "serving" {
-			r.queued(a, st.D) // (a serving daemon answers at once: the Accept step follows)
 		}
-	case "RetryDial":
+	case "Dial", "RetryDial":
+		// follows its Lstat at once (no hook between the two: nobody else moves in between)
+		a := r.shell(st.S)
+		point := "shell.detected"
+		if st.A == "RetryDial" {
+			point = "shell.retry-detected"
+		}
+		switch st.R {
+		case "refused":
+			r.expect(a, point, statusOf(st.R))
+		case "queued":
+			if st.Dpc[st.D-1] != "serving" {
+				r.queued(a, st.D) // (a serving daemon answers at once: the Accept step follows)
+			}
+		default:
+			r.infra(fmt.Errorf("replayer: %s with outcome %q cannot be scheduled through the hooks", st.A, st.R))
+		}
+	case "RetryLstat":
 		a := r.shell(st.S)
 		r.at(a, "shell.spawned", "shell.retry-detected")
 		w.let(a)
-		if st.R != "queued" {
+		if st.R == "missing" {
 			r.expect(a, "shell.retry-detected", statusOf(st.R))
-		} else if st.Dpc[st.D-1] != "serving" {
-			r.queued(a, st.D)
 		}
 	case "Accept":
 		a := r.shell(st.S)
